@@ -112,13 +112,17 @@ def run_C06(ctx):
             usable.append(rec)
         else:
             skipped[why] = skipped.get(why, 0) + 1
-    verdicts = V.tlc_validate(ctx, "TraceSem", usable, {})
-    stats, viol = V.collect(verdicts, usable, "C06")
+    # formulas inside whole problems (renamed symbols, placeholders replaced, several formulas sharing declarations)
+    precs, pviol, _ = problem_records(ctx, E.strong_cases(ctx, 8, 60) + E.ext_cases(ctx, 8, 60))
+    pusable, _ = param_problems(ctx, precs)
+    pusable = pusable[:: max(1, len(pusable) // (60 if q else 600))]
+    verdicts = V.tlc_validate(ctx, "TraceSem", usable + pusable, {})
+    stats, viol = V.collect(verdicts, usable + pusable, "C06")
     for v in viol:
-        v["detail"] += f"  [rendered as `{v['record'].get('tptp')}`]"
+        v["detail"] += f"  [rendered as `{v['record'].get('tptp', v['record'].get('problem_text', ''))[:600]}`]"
     violations += viol
     coverage = {
-        "programs": len(usable), "cases_generated": len(cases), "syntax_rejected_by_both_readers": syntax_bad,
+        "programs": len(usable), "cases_generated": len(cases), "syntax_rejected_by_both_readers": syntax_bad, "whole_problems": len(pusable),
         "disagreements_checked": stats["verdicts"] - stats["skip"], "evaluations": stats["evaluations"], "unknown_evaluations": stats["unknown"],
         "distinct_nontrivial": len(stats["nontrivial_ids"]), "vacuous_or_constant": stats["vacuous"], "skipped": skipped,
         "identical_normal_forms": stats["identical"],
